@@ -4,7 +4,7 @@ SLG        Forest::build_table: for each clause of the filtered candidate list a
            (the clause head does not unify: audited skip); no break / return.
 recursive  solve_from_clauses: for each clause a Fulfill is built and solved and the result combined; the only early exit is the
            `cur_solution.is_trivial_and_always_true()` break (nothing can generalise the trivially true solution further)."""
-from core import peel, callee_matches, expr_vars
+from core import peel, callee_matches, expr_vars, enum_matches, select_arms, V
 from kit import need_body, has_call, for_loops, loop_total
 
 
@@ -46,3 +46,29 @@ def every_clause(ck, facts, R):
             loop_total(ck, R, "solve_from_clauses:every-clause-solved", b.where(l.get("ln")), body,
                        lambda n: n.get("k") == "call" and callee_matches(n, ("Fulfill::new_with_clause", "new_with_clause")), excused2,
                        what="a candidate clause")
+
+
+def trivial_subst_kinds(ck, facts, R):
+    """Fulfill applies the definite substitution of a sub-obligation's answer unless is_trivial_canonical_subst says it is the
+    identity; an arm of that function that answers a constant for one kind of generic argument either loses bindings of that kind
+    (constant true: the obligation is dropped as solved with its answer never applied - the recursive solver then reports less than
+    the SLG solver) or spins the progress loop (constant false)."""
+    ck.rule(R, "K1: is_trivial_canonical_subst decides per generic argument by looking at the argument's bound variable, for all three "
+               "kinds (Ty, Lifetime, Const); no arm is a constant")
+    key = "chalk_recursive::fulfill::is_trivial_canonical_subst"
+    tb = need_body(ck, facts, R, key)
+    if not tb:
+        return
+    ms = enum_matches(facts.thir(key), "chalk_ir::GenericArgData")
+    if len(ms) != 1:
+        ck.violation(R, "is_trivial_canonical_subst:match", tb.where(), "expected one match on GenericArgData, found %d" % len(ms))
+        return
+    for v in facts.variants("chalk_ir::GenericArgData"):
+        arms = select_arms(ms[0], V(v))
+        arm = ms[0]["arms"][arms[0][0]]
+        if has_call(arm["body"], "bound_var"):
+            ck.ok(R, "is_trivial_canonical_subst:%s" % v, "is_trivial(x.bound_var())")
+        else:
+            ck.violation(R, "is_trivial_canonical_subst:%s" % v, tb.where(arm["ln"]),
+                         "the %s arm does not look at the argument's bound variable: bindings of this kind found by a sub-obligation are "
+                         "either never applied or always re-applied" % v)
